@@ -289,6 +289,17 @@ def run(ctx):
                    "and scalings for every grid size and cell (src_*_is_model, src_scale_is_model, closed under the global context)",
                    "tie", ok_src, out_src[-700:] if not ok_src else "")
 
+    try:
+        adm_txt, adm_summary = c20_translate.translate_admt(REPO)
+        ok_adm, out_adm = coqc(ctx.write_gen("SourceAdmt.v", adm_txt))
+        ok_adm = ok_adm and "Closed under the global context" in out_adm
+        ctx.coverage["source_tie_admt"] = adm_summary
+    except c20_translate.TranslateError as e:
+        ok_adm, out_adm = False, "translator (fail-closed): %s" % e
+    ctx.obligation("Gen/C20/SourceAdmt.v: the coefficient formulas, diffusivities and assembly of calculate_admt translated from the source "
+                   "equal the model's for every jet with |grad psi| != 0 and R != 0 (src_*_is_model, src_admt_row_is_model)",
+                   "tie", ok_adm, out_adm[-700:] if not ok_adm else "")
+
     rng = ctx.rng
     quick = ctx.quick
     # ---- stencil correspondence ---------------------------------------------------------------
